@@ -318,7 +318,11 @@ var _ merger.TypeURLMap
 //@ end
 
 //@ func (ScrubFields).clean
-//@ props C07
+//@ props C07 C01
+// C01: a list field is pruned only when EVERY entry became empty: the verdict is accumulated with &&, so an entry that
+// keeps data makes it false for good (two-state obligation per iteration: once false, false)
+//@ loop 2 step[sticky] !athead(removeParent) ==> !removeParent @props C01
+//@ loop 3 step[sticky] !athead(removeParent) ==> !removeParent @props C01
 //@ end
 
 //@ func getVariablesList
